@@ -2,7 +2,7 @@
   C08 — Source failures surface as that source error, never as success or content error.
 
   The stream layer (`Bcder.Model.Stream`) fails the request with index `k` (`failAt = some k`) with
-  `Err.source`.  For every capture-free routine, every input, every conforming grant policy and
+  `Err.source`.  For EVERY routine (capturing or not), every input, every conforming grant policy and
   EVERY position `k`: the outcome is the injected source error, or - when the routine issues fewer
   than `k+1` requests - exactly the outcome of the fault-free run.  In particular it is never a
   different value, never a content error in place of the source error, never a panic.
@@ -17,18 +17,18 @@ def S.failing (data : Bytes) (limit : Option Nat) (k : Nat) : S :=
 
 theorem rel_failing (data : Bytes) (limit : Option Nat) (k : Nat) :
     Rel (S.failing data limit k) (G.fresh data limit) :=
-  ⟨rfl, rfl, rfl, Nat.le_refl 0, Nat.zero_le _⟩
+  ⟨rfl, rfl, rfl, Nat.le_refl 0, Nat.le_refl 0, Nat.zero_le _⟩
 
 /-- C08 (main) -/
-theorem fault_surfaces (pol : Policy) (hp : Conforming pol) (p : Prog α) (hn : NoCap p)
+theorem fault_surfaces (pol : Policy) (hp : Conforming pol) (p : Prog α)
     (data : Bytes) (limit : Option Nat) (k : Nat) :
     (∀ a g', runG p (G.fresh data limit) = .ok (a, g') →
       runS pol p (S.failing data limit k) = .error .source ∨
-      ∃ s', runS pol p (S.failing data limit k) = .ok (a, s') ∧ s'.data = g'.data) ∧
+      ∃ s', runS pol p (S.failing data limit k) = .ok (a, s') ∧ s'.data.drop s'.off = g'.data) ∧
     (∀ e, runG p (G.fresh data limit) = .error e → e.isPanic = false →
       runS pol p (S.failing data limit k) = .error .source ∨
       runS pol p (S.failing data limit k) = .error e) := by
-  have h := run_sim pol hp p hn (S.failing data limit k) (G.fresh data limit) (rel_failing data limit k)
+  have h := run_sim pol hp p (S.failing data limit k) (G.fresh data limit) (rel_failing data limit k)
   constructor
   · intro a g' hg
     rcases h.1 a g' hg with ⟨_, hs⟩ | ⟨s', hs', R', _⟩
@@ -44,22 +44,33 @@ theorem first_request_fails (pol : Policy) (data : Bytes) (limit : Option Nat) :
     runS pol Tag.takeFrom (S.failing data limit 0) = .error .source := by
   simp [Tag.takeFrom, Tag.takeOptFrom, runS, stepS, Prog.takeOptU8, S.failing, S.request, S.baseRequest,
     Bind.bind, Prog.bind]
-  cases limit <;> simp [runS]
 
 /-- C08 instantiated for value-by-value reading of a whole source -/
 theorem generic_read_fault (pol : Policy) (hp : Conforming pol) (m : Mode) (data : Bytes) (fuel k : Nat) :
     let p : Prog Trace := decodeTop m (fun c => do let (c', x) ← genericAll fuel c {}; pure (x.trace, c'))
     (∀ a g', runG p (G.fresh data none) = .ok (a, g') →
       runS pol p (S.failing data none k) = .error .source ∨
-      ∃ s', runS pol p (S.failing data none k) = .ok (a, s') ∧ s'.data = g'.data) ∧
+      ∃ s', runS pol p (S.failing data none k) = .ok (a, s') ∧ s'.data.drop s'.off = g'.data) ∧
     (∀ e, runG p (G.fresh data none) = .error e → e.isPanic = false →
       runS pol p (S.failing data none k) = .error .source ∨
       runS pol p (S.failing data none k) = .error e) := by
   intro p
-  apply fault_surfaces pol hp p
-  apply nocap_decodeTop
-  intro c
-  have := (nocap_generic fuel).2 c {}
-  nocap
+  exact fault_surfaces pol hp p data none k
+
+/-- C08 instantiated for a routine that captures: decoding an OCTET STRING (any form) -/
+theorem octet_string_fault (pol : Policy) (hp : Conforming pol) (m : Mode) (data : Bytes) (fuel k : Nat) :
+    let p : Prog OS := decodeTop m (fun c => takeValueIf c Tag.OCTET_STRING (OS.fromContent fuel))
+    (∀ a g', runG p (G.fresh data none) = .ok (a, g') →
+      runS pol p (S.failing data none k) = .error .source ∨
+      ∃ s', runS pol p (S.failing data none k) = .ok (a, s') ∧ s'.data.drop s'.off = g'.data) ∧
+    (∀ e, runG p (G.fresh data none) = .error e → e.isPanic = false →
+      runS pol p (S.failing data none k) = .error .source ∨
+      runS pol p (S.failing data none k) = .error e) :=
+  fault_surfaces pol hp _ data none k
+
+/-- the fault fires inside a capture too: the request for the second segment header of a
+    constructed OCTET STRING (request 6 over the stingy source) -/
+example : runS stingy (decodeTop .ber (fun c => takeValueIf c Tag.OCTET_STRING (OS.fromContent 5)))
+      (S.failing [0x24, 0x80, 0x04, 0x01, 0x61, 0x04, 0x01, 0x62, 0x00, 0x00] none 6) = .error .source := by rfl
 
 end Bcder.Props.C08
